@@ -9,9 +9,13 @@ import (
 	"fmt"
 	"github.com/antlr/antlr4/runtime/Go/antlr/v4"
 	"github.com/daeuniverse/dae-config-dist/go/dae_config"
+	"unicode/utf8"
 )
 
 func Parse(in string) (sections []*Section, err error) {
+	if !utf8.ValidString(in) {
+		return nil, fmt.Errorf("config text is not valid UTF-8")
+	}
 	errorListener := NewConsoleErrorListener()
 	// Never let a malformed parse tree crash the caller (the parser also runs inside the daemon on reload).
 	defer func() {
